@@ -24,6 +24,8 @@ NEWS = [
     [('n', 3), ('s', ' ')], [('s', '')], [('s', 'x'), ('s', 'y'), ('s', 'z')],
     [('s', '('), ('self', 0), ('s', ')')], [('self', 0), ('s', '!')],
     [('soup', '\\p\\q'), ('s', 'Z')], [('s', 'A'), ('soup', '\\p{1} and $m$'), ('n', 0)], [('soup', ''), ('s', 'E')],
+    # an empty string among other items
+    [('s', ''), ('s', 'X'), ('s', 'Y')], [('s', 'A'), ('s', ''), ('n', 0)], [('n', 1), ('s', ''), ('s', ''), ('s', 'Q')],
     # many items in one call
     [('s', 'w%d ' % i) for i in range(20)], [('n', i % 4) if i % 3 else ('s', '<%d>' % i) for i in range(33)],
 ]
